@@ -253,6 +253,10 @@ class Expander:
                 if mc is not None:
                     return mc
             return copy.deepcopy(e)
+        if isinstance(e, ast.Name) and isinstance(getattr(e, 'ctx', ast.Load()), ast.Load) and e.id not in stop \
+                and e.id in self._mutated_names() and ('acc', e.id) not in seen:
+            acc = self._accumulated(e.id, at, depth, seen, stop)
+            return acc if acc is not None else copy.deepcopy(e)
         if isinstance(e, ast.Call):
             new = ast.Call(func=self._xfunc(e.func, at, depth, seen, stop),
                            args=[self._x(a, at, depth, seen, stop) for a in e.args],
@@ -313,6 +317,9 @@ class Expander:
         if len(ds) != 2 or any(d.kind != 'assign' or d.value is None or d.node is None or id(d) in seen for d in ds):
             return None
         cfg = self.flow.cfg
+        dia = self._diamond(var, ds, at, depth, seen, stop)
+        if dia is not None:
+            return dia
         for d1, d2 in (ds, ds[::-1]):
             if d1.node is d2.node or d1.node is at or d2.node is at:
                 continue
@@ -345,6 +352,63 @@ class Expander:
             return ast.IfExp(test=tx, body=b, orelse=a)
         return None
 
+    def _accumulated(self, name, at, depth, seen, stop):
+        """final value of an accumulator list (`acc = [..]; for v in X: [if ..] acc.append(E)`) read after all of its
+        mutations: `[E for v in X if ..] + [..]` (facts.accumulated_list); None when a mutation may still follow the use"""
+        from . import facts
+        out = facts.accumulated_list(self.func, name)
+        if out is None:
+            return None
+        cfg = self.flow.cfg
+        for n in ast.walk(self.func.node):
+            mut = None
+            if isinstance(n, ast.Call) and isinstance(n.func, ast.Attribute) and isinstance(n.func.value, ast.Name) and \
+                    n.func.value.id == name and n.func.attr in self._MUTATORS:
+                mut = n
+            elif isinstance(n, ast.AugAssign) and isinstance(n.target, ast.Name) and n.target.id == name:
+                mut = n
+            if mut is not None:
+                mn = cfg.node_containing(mut)
+                if mn is None or mn is at or cfg.can_reach(at, mn):
+                    return None
+        cs = [c for c in facts.collects(self.func) if c.kind == 'loop' and c.acc == name]
+        hdr = cfg.node_of(cs[0].node) if cs else None
+        if hdr is None or not cfg.dominates(hdr, at):
+            return None
+        self.expanded_paths.add(name)
+        return self._x(out, hdr, depth + 1, seen | {('acc', name)}, stop)
+
+    def _diamond(self, var, ds, at, depth, seen, stop):
+        """if c: x = A  else: x = B;  ... x ...   ->   (A if c else B): the two definitions sit in the two branches of one test
+        (directly: exactly one more condition than the use has in common with them) and the test dominates the use"""
+        cfg = self.flow.cfg
+        d1, d2 = ds
+        if d1.node is d2.node or d1.node is at or d2.node is at:
+            return None
+        c1, c2 = cfg.conditions(d1.node), cfg.conditions(d2.node)
+        if len(c1) != len(c2) or not c1 or any(a[0] is not b[0] or a[1] != b[1] for a, b in zip(c1[:-1], c2[:-1])):
+            return None
+        (t1, p1), (t2, p2) = c1[-1], c2[-1]
+        if t1 is not t2 or p1 == p2:
+            return None
+        tn = cfg.node_containing(t1)
+        if tn is None or not cfg.dominates(tn, at) or cfg.can_reach(at, tn):
+            return None
+        if any(isinstance(x, (ast.While,)) for x in ()):
+            return None
+        s2 = seen | {id(d1), id(d2)}
+        dt, df = (d1, d2) if p1 else (d2, d1)
+        a = self._x(dt.value, dt.node, depth + 1, s2, stop)
+        b = self._x(df.value, df.node, depth + 1, s2, stop)
+        # the test is read where it was evaluated; names it mentions must not be redefined up to the use
+        for n in ast.walk(t1):
+            p = attr_path(n) if isinstance(n, (ast.Name, ast.Attribute)) else None
+            if p and not self.flow.no_def_between(p, tn, at):
+                return None
+        tx = self._x(t1, tn, depth + 1, s2, stop)
+        self.expanded_paths.add(var)
+        return ast.IfExp(test=tx, body=a, orelse=b)
+
     _MUTATORS = {'append', 'extend', 'insert', 'remove', 'pop', 'clear', 'sort', 'reverse', 'add', 'discard', 'update', 'setdefault',
                  'popitem', '__setitem__', '__delitem__'}
 
@@ -363,6 +427,12 @@ class Expander:
                     for t in tg:
                         if isinstance(t, ast.Subscript) and isinstance(t.value, ast.Name):
                             m.add(t.value.id)
+            # a local that is only ever an alias of an attribute path / another name (x = node.children) denotes the same
+            # object as that path: expanding it is exact, the mutation happens to the aliased object
+            for name in list(m):
+                ds = self.flow.defs_of(name)
+                if ds and all(d.kind == 'assign' and isinstance(d.value, ast.Attribute) and attr_path(d.value) is not None for d in ds):
+                    m.discard(name)
             self._mut_cache = m
         return m
 
